@@ -389,10 +389,14 @@ class Model(Object):
             "notes",
             "annotation",
             "groups",
+            "_contexts",
         }
         for attr in self.__dict__:
             if attr not in do_not_copy_by_ref:
                 new.__dict__[attr] = self.__dict__[attr]
+        # The copy must not record anything in a context of the original while
+        # it is being built.
+        new._contexts = []
         new.notes = deepcopy(self.notes)
         new.annotation = deepcopy(self.annotation)
 
